@@ -468,7 +468,33 @@ def script_sequencing():
     return rows
 
 
-GROUPS = ["cancel", "mismatch", "exit", "setdef", "escape", "signals", "sighandler", "termchild", "termexit", "delayloop", "drainloop", "drainexit", "drainalways", "verdict", "weights", "retries", "scripts", "mainloop", "interval", "placeholders", "xml"]
+def spawn_setup():
+    """executor.rs `run_test_inner` (and unix.rs): how an attempt's command is prepared before it is spawned."""
+    ex = re.sub(r"\s+", " ", strip_comments(read("nextest-runner/src/runner/executor.rs")))
+    ux = re.sub(r"\s+", " ", strip_comments(read("nextest-runner/src/runner/unix.rs")))
+    m = re.search(r"async fn run_test_inner<'test>\(.*?let crate::test_command::Child \{", ex)
+    if not m: raise RuntimeError("run_test_inner: command preparation not found")
+    b = m.group(0)
+    order = []
+    for key, pat in [("make_command", r"\.make_command\(&ctx, self\.test_list, test\.settings\.run_extra_args\(\)\)"),
+                     ("attempt", r'command_mut\.env\("__NEXTEST_ATTEMPT", format!\("\{\}", test\.retry_data\.attempt\)\)'),
+                     ("run_id", r'command_mut\.env\("NEXTEST_RUN_ID", format!\("\{\}", self\.run_id\)\)'),
+                     ("global_slot", r'command_mut\.env\( "NEXTEST_TEST_GLOBAL_SLOT", test\.cx\.global_slot\(\)\.to_string\(\), \)'),
+                     ("group", r'command_mut\.env\("NEXTEST_TEST_GROUP", name\.as_str\(\)\).*?command_mut\.env\("NEXTEST_TEST_GROUP", TestGroup::GLOBAL_STR\)'),
+                     ("group_slot", r'if let Some\(group_slot\) = test\.cx\.group_slot\(\) \{ command_mut\.env\("NEXTEST_TEST_GROUP_SLOT", group_slot\.to_string\(\)\); \} else \{ command_mut\.env\("NEXTEST_TEST_GROUP_SLOT", "none"\); \}'),
+                     ("stdin_null", r"command_mut\.stdin\(Stdio::null\(\)\)"),
+                     ("script_env", r"test\.setup_script_data\.apply\( &test\.test_instance\.to_test_query\(\), &self\.profile\.filterset_ecx\(\), command_mut, \)"),
+                     ("process_group", r"super::os::set_process_group\(command_mut\)")]:
+        mm = re.search(pat, b)
+        order.append((key, mm.start() if mm else -1))
+    rows = [(f"run_test_inner: {k} is there", pos >= 0) for k, pos in order]
+    rows.append(("run_test_inner: in the order make_command, attempt, run id, global slot, group, group slot, stdin, script env, process group",
+                 all(p >= 0 for _, p in order) and [p for _, p in order] == sorted(p for _, p in order)))
+    rows.append(("unix.rs: set_process_group makes the child the leader of a new group", re.search(r"fn set_process_group\(cmd: &mut std::process::Command\) \{ cmd\.process_group\(0\); \}", ux) is not None))
+    return rows
+
+
+GROUPS = ["cancel", "mismatch", "exit", "setdef", "escape", "signals", "sighandler", "termchild", "termexit", "delayloop", "drainloop", "drainexit", "drainalways", "verdict", "weights", "retries", "scripts", "spawn", "mainloop", "interval", "placeholders", "xml"]
 
 
 def group_lines(g):
@@ -556,6 +582,10 @@ def group_lines(g):
         rows = script_sequencing()
         return ["/-- executor.rs / imp.rs: the sequencing of setup scripts, as written -/",
                 "def scriptSequencing : List (String × Bool) := [" + ", ".join(f'("{a}", {"true" if b else "false"})' for a, b in rows) + "]"]
+    if g == "spawn":
+        rows = spawn_setup()
+        return ["/-- executor.rs / unix.rs: how an attempt's command is prepared, as written -/",
+                "def spawnSetup : List (String × Bool) := [" + ", ".join(f'("{a}", {"true" if b else "false"})' for a, b in rows) + "]"]
     if g == "mainloop":
         keys = {"Stop": r"SignalRequest::Stop\(\w+\)", "Continue": r"SignalRequest::Continue"}
         arms = request_arms(strip_comments(read("nextest-runner/src/runner/executor.rs")), "handle_signal_request", keys)
